@@ -20,10 +20,10 @@ ENext == /\ Next
                     THEN Append(hist, [kind |-> "end", obs |-> Obs])
                     ELSE IF pc = "idle" /\ pc' # "idle"
                     THEN Append(hist, IF op'.kind = "kv" THEN [kind |-> "kv", upd |-> op'.upd, ord |-> op'.ord]
-                                      ELSE [kind |-> "app", k |-> op'.k, failg |-> op'.failg, failc |-> op'.failc, why |-> op'.why])
+                                      ELSE [kind |-> "app", k |-> op'.k, failg |-> op'.failg, failc |-> op'.failc, why |-> op'.why, big |-> op'.big])
                     ELSE IF pc = "idle" /\ pc' = "idle" /\ nops' > nops    \* operation refused at its first step
                     THEN Append(Append(hist, IF op'.kind = "refuse" THEN [kind |-> "refuse", why |-> op'.why]
-                                             ELSE [kind |-> "app", k |-> -1, failg |-> 0, failc |-> 0, why |-> "none"]),
+                                             ELSE [kind |-> "app", k |-> -1, failg |-> 0, failc |-> 0, why |-> "none", big |-> FALSE]),
                                 [kind |-> "end", obs |-> Obs])
                     ELSE hist
 
